@@ -249,6 +249,15 @@ def build_opts(case):
                                     else b"\x08" * 32), k["c_hash"])]
         if k["c_hash"] is None:
             cs.pskConfigs = [cs.pskConfigs[0][:2]]
+        if k.get("c_extra_first"):
+            # a further PSK the server does not know, offered first (binders
+            # of different hashes differ in length)
+            cs.pskConfigs = [(bytearray(b"psk-other"), bytearray(b"\x09" * 32),
+                              k["c_extra_first"])] + cs.pskConfigs
+        if k.get("s_extra_first"):
+            ss.pskConfigs = [(bytearray(b"psk-srv-only"),
+                              bytearray(b"\x0a" * 32),
+                              k["s_extra_first"])] + ss.pskConfigs
         if k.get("no_cert"):
             del server["cred"]
     if case.get("c_alpn") and fl == "cert":
